@@ -63,6 +63,7 @@ CONSTANTS Conns,      \* connection ids (each used for one lifetime)
           MaxReqs,    \* requests + wills in one behaviour
           MaxWills,   \* wills per connection
           MaxInits,   \* INIT commands per connection
+          MaxTraffic, \* bursts of third-party traffic in one behaviour
           WillKeys,   \* keys a will may use: subset of Keys \cup {0}; 0 = a private key
           F1Fixed, F2Fixed, F4Fixed,
           Eager       \* TRUE: a disconnect in progress runs to completion before anything else
@@ -93,6 +94,7 @@ S0 == [cs |-> [c \in Conns |-> ConnRec0],
        nwr |-> <<>>,                          \* history: request id -> number of replies written to a connection
        bad |-> FALSE,                         \* history: some reply was written to a connection that must not get it
        exec |-> [c \in Conns |-> <<>>],       \* history: wills executed, in execution order
+       ntraffic |-> 0,                        \* bursts of unrelated traffic so far
        crashed |-> FALSE]
 
 -----------------------------------------------------------------------------
@@ -225,6 +227,15 @@ ReqUnlock(c, k) ==
        IN /\ st' = ExecUnlock(S1, rid)
           /\ Log("unlock", c, k, rid, "U", st.ks[k].h)
 
+\* Third-party traffic: a connection does completed lock+unlock pairs on keys nobody else uses.  In the code this
+\* cycles the recycled LockCommand objects (per-connection free stacks, global pool: InitLockCommand /
+\* UnInitLockCommand / GetLockCommand / FreeLockCommand); for the property it is a no-op: whatever ended
+\* connections left behind (holds, queued requests, i.e. st.ks) is untouched (LeftBehindStable).
+Traffic(c) ==
+    /\ CanSend(c) /\ st.ntraffic < MaxTraffic
+    /\ st' = [st EXCEPT !.ntraffic = @ + 1]
+    /\ Log("traffic", c, 0, 0, st.cs[c].kind, 0)
+
 Timeout(k, i) ==
     /\ i \in 1..Len(st.ks[k].wq)
     /\ LET w  == st.ks[k].wq[i]
@@ -301,6 +312,7 @@ ClientSteps ==
     \/ \E c \in Conns, k \in Keys, w \in BOOLEAN : ReqLock(c, k, w)
     \/ \E c \in Conns, k \in Keys : ReqUnlock(c, k)
     \/ \E c \in Conns, g \in BOOLEAN : Hangup(c, g)
+    \/ \E c \in Conns : Traffic(c)
 
 TimerSteps ==
     \/ \E k \in Keys, i \in 1..MaxReqs : Timeout(k, i)
@@ -370,6 +382,12 @@ DrainedClean ==
 \* holds survive the disconnect itself: only a request, a will, a timeout or an expiry changes a key
 HoldsSurvive ==
     [][(\E c \in Conns : st.cs[c].st # st'.cs[c].st /\ st'.exec = st.exec) => st'.ks = st.ks]_vars
+
+\* left-behind state (and every other key state) changes only by a request, a will, a timeout or an expiry
+\* that names THAT key - never by a disconnect, an INIT, a reconnect or unrelated traffic
+LeftBehindStable ==
+    [][\A k \in Keys : st'.ks[k] # st.ks[k] =>
+           LET h == hist'[Len(hist')] IN Len(hist') = Len(hist) + 1 /\ h.op \in {"lock", "unlock", "willexec", "timeout", "expire"} /\ h.k = k]_vars
 
 \* queued requests still end (under fair timers): liveness, checked on the small config only
 Fairness == WF_vars(TimerSteps) /\ WF_vars(CloseSteps)
